@@ -414,6 +414,9 @@ def run(ctx, cfg=CFG):
     r2_validated(ctx, cfg)
     from .c07 import hooks_fast_path
     hooks_fast_path(ctx, "C12.R2")
+    # validated reads rest on the hooks' skip decision being a pure function of the size (round 6: C12-r6m2)
+    from . import c07
+    c07.r6_skip_pure(ctx, c07.CFG)
     r3_order(ctx, cfg)
     r4_fanout(ctx, cfg)
     r5_no_guard_across_await(ctx, cfg)
